@@ -450,7 +450,13 @@ def evaluate_cases(stage, pid, prop, cases, jobs=1):
             continue
         parts = prop.expand(c, o) if hasattr(prop, "expand") else [(c, o)]
         for (cc, oo) in parts:
-            t = prop.emit(cc, oo)
+            try:
+                t = prop.emit(cc, oo)
+            except Exception as e:  # noqa
+                # an output that cannot be written as a Coq literal (NaN / infinity where a number is expected, a missing field):
+                # the implementation did not return what the model predicts -- the case fails like a raised exception does
+                outs[i] = {"exc": "UnrepresentableOutput", "msg": "%s: %s" % (type(e).__name__, str(e)[:200]), "raw": str(oo)[:600]}
+                t = None
             if t is not None:
                 terms.append(t)
                 idx.append(i)
@@ -685,6 +691,14 @@ def main_check(pid, tier, seed):
             log("generator degenerate: %d nontrivial of %d distinct" % (nontrivial, len(distinct)))
     except StopCheck:
         pass
+    except Exception as e:  # noqa
+        # the check's own machinery failed on this tree (an output shape it cannot digest, ...): the property is no longer shown
+        # to hold; reported as such rather than as a crash
+        import traceback
+        rp = write_replay(pid, tier, seed, "unchecked",
+                          {"no_longer_checks": ["the check could not be carried out: %s: %s" % (type(e).__name__, str(e)[:300])],
+                           "traceback": traceback.format_exc()[-3000:]})
+        violations.append((rp, " no-failing-input-found"))
     finally:
         if stage is not None:
             stage.cleanup()
